@@ -38,6 +38,7 @@ Inductive instr :=
 | IStore (e : expr)                    (* atomic.Store(l, e) *)
 | IAdd (e : expr)                      (* atomic.Add(l, e) *)
 | ICas (r : reg) (old new : expr)      (* r := atomic.CompareAndSwap(l, old, new)  (1 / 0) *)
+| ISet (r : reg) (e : expr)            (* r := e   (a local that is assigned more than once, e.g. a `done` flag) *)
 | IJmpIf (c : cond) (t : nat)
 | IJmp (t : nat)
 | IRet.
@@ -107,6 +108,7 @@ Definition step_instr (m : mem) (t : thread) (l : loc) (i : instr) : mem * threa
       if m l =? eval a rs old
       then (upd m l (eval a rs new), at_pc t (S pc) (set_nth rs r 1))
       else (m, at_pc t (S pc) (set_nth rs r 0))
+  | ISet r e => (m, at_pc t (S pc) (set_nth rs r (eval a rs e)))
   | IJmpIf c tg => (m, at_pc t (if evalc a rs c then tg else S pc) rs)
   | IJmp tg => (m, at_pc t tg rs)
   | IRet => (m, next_sec t)
@@ -170,14 +172,15 @@ Definition sumZ (l : list Z) : Z := fold_right Z.add 0 l.
 Definition add_only (l : loc) (secs : list section) : bool :=
   forallb (fun s => negb (N.eqb (s_loc s) l) || match s_body s with BAdd _ => true | _ => false end) secs.
 
-(* ---- the two recognised shapes of an extreme-value update on one location ---- *)
+(* ---- extreme-value updates on one location ---- *)
 
-(* for { cur := Load(l); if skip(cur, v) { break }; if CAS(l, cur, v) { break } } *)
+(* the canonical compare-and-swap loop:
+   for { cur := Load(l); if skip(cur, v) { break }; if CAS(l, cur, v) { break } } *)
 Definition cas_prog (skip : cond) (v : expr) : list instr :=
   [ ILoad 0%nat; IJmpIf skip 5%nat; ICas 1%nat (EReg 0%nat) v;
     IJmpIf (CNot (CEq (EReg 1%nat) (EConst 0))) 5%nat; IJmp 0%nat; IRet ].
 
-(* cur := Load(l); if !skip(cur, v) { Store(l, v) }          (load-compare-store) *)
+(* cur := Load(l); if !skip(cur, v) { Store(l, v) }          (load-compare-store: loses updates) *)
 Definition lcs_prog (skip : cond) (v : expr) : list instr :=
   [ ILoad 0%nat; IJmpIf skip 3%nat; IStore v; IRet ].
 
@@ -193,22 +196,220 @@ Proof. decide equality; apply expr_eq_dec. Defined.
 Definition instr_eq_dec : forall a b : instr, {a = b} + {a <> b}.
 Proof. decide equality; try apply expr_eq_dec; try apply cond_eq_dec; apply Nat.eq_dec. Defined.
 Definition prog_eqb (p q : list instr) : bool := if list_eq_dec instr_eq_dec p q then true else false.
+Definition expr_eqb (a b : expr) : bool := if expr_eq_dec a b then true else false.
 
-(* operand of the update: the `new` operand of the CAS (3rd instruction) / the stored value *)
-Definition operand (p : list instr) : option expr :=
-  match p with _ :: _ :: ICas _ _ v :: _ => Some v | _ :: _ :: IStore v :: _ => Some v | _ => None end.
+(* operand of the update: the `new` operand of the first CAS / the first stored value *)
+Fixpoint operand (p : list instr) : option expr :=
+  match p with
+  | [] => None
+  | ICas _ _ v :: _ => Some v
+  | IStore v :: _ => Some v
+  | _ :: r => operand r
+  end.
 
-(* s, if it is on l, is an unconditional CAS-loop update with the given skip condition *)
-Definition is_cas_sec (skip : expr -> cond) (l : loc) (s : section) : bool :=
+(* ---- the class of read-modify-write retry loops (is_rmw_loop) ----
+   Not one literal instruction list but every control-flow graph on which an abstract execution shows:
+     - the only effect on the location is a CAS whose expected value is the value last loaded into a register
+       and whose new value is the recorded operand v, executed only on paths on which the tests made since the
+       load imply that v improves on (or equals) the loaded value;
+     - the section ends only after a successful CAS, or on a path on which the tests made since the last load imply
+       that the loaded value is already at least as good as v;
+     - anything else (failed CAS, ...) leads back to a load: retry.
+   The abstract state of a thread: registers with a known constant value (CAS results, flags such as `done`), and a
+   phase: PIdle (nothing usable is known), PLoaded rc pts (register rc holds a value loaded from the location; the
+   pair (loaded value, v) lies in one of the abstract points pts: the tests made since refine the set), PGood (the
+   location already holds a value at least as good as v).  A point is the relative position of the loaded value cur
+   and the candidate v:  cur = sentinel ("not set") | cur < v | cur = v | cur > v. *)
+Inductive pt := PUnset | PLt | PEq | PGt.
+Inductive phase := PIdle | PLoaded (rc : reg) (pts : list pt) | PGood.
+Record astate := { a_known : list (reg * Z); a_phase : phase }.
+
+(* what "improves" means for a role: which points exist, the sentinel if any, at which points v is at least as good
+   as cur (a CAS cur -> v is allowed), at which points cur is at least as good as v (leaving without update is allowed) *)
+Record ospec := { o_points : list pt; o_sentinel : option Z; o_improves : pt -> bool; o_skipok : pt -> bool }.
+
+Definition pt_eq_dec : forall a b : pt, {a = b} + {a <> b}.
+Proof. decide equality. Defined.
+Definition phase_eq_dec : forall a b : phase, {a = b} + {a <> b}.
+Proof. decide equality; [apply (list_eq_dec pt_eq_dec) | apply Nat.eq_dec]. Defined.
+Definition known_eq_dec : forall a b : list (reg * Z), {a = b} + {a <> b}.
+Proof. apply list_eq_dec. decide equality; [apply Z.eq_dec | apply Nat.eq_dec]. Defined.
+Definition astate_eq_dec : forall a b : astate, {a = b} + {a <> b}.
+Proof. decide equality; [apply phase_eq_dec | apply known_eq_dec]. Defined.
+
+Fixpoint klook (k : list (reg * Z)) (r : reg) : option Z :=
+  match k with [] => None | (r', z) :: t => if Nat.eqb r' r then Some z else klook t r end.
+Definition kdel (k : list (reg * Z)) (r : reg) : list (reg * Z) := filter (fun e => negb (Nat.eqb (fst e) r)) k.
+Fixpoint kins (k : list (reg * Z)) (r : reg) (z : Z) : list (reg * Z) :=
+  match k with
+  | [] => [(r, z)]
+  | (r', z') :: t => if (r <? r')%nat then (r, z) :: k else (r', z') :: kins t r z
+  end.
+Definition kset (k : list (reg * Z)) (r : reg) (z : Z) : list (reg * Z) := kins (kdel k r) r z.
+
+(* value of an expression that only depends on registers with a known value *)
+Fixpoint keval (k : list (reg * Z)) (e : expr) : option Z :=
+  match e with
+  | EConst z => Some z
+  | EReg r => klook k r
+  | EArg _ => None
+  | EAdd a b => match keval k a, keval k b with Some x, Some y => Some (x + y) | _, _ => None end
+  end.
+
+Definition is_reg (rc : reg) (e : expr) : bool := match e with EReg r => Nat.eqb r rc | _ => false end.
+Definition is_const (z : Z) (e : expr) : bool := match e with EConst z' => z' =? z | _ => false end.
+Definition pt_is (a b : pt) : bool := if pt_eq_dec a b then true else false.
+
+(* truth of a comparison between the loaded value (register rc), the candidate v and the sentinel at a point *)
+Definition atom (o : ospec) (q : pt) (rc : reg) (v : expr) (c : cond) : option bool :=
+  match c with
+  | CLt a b =>
+      if is_reg rc a && expr_eqb b v then Some (pt_is q PUnset || pt_is q PLt)
+      else if expr_eqb a v && is_reg rc b then Some (pt_is q PGt)
+      else None
+  | CEq a b =>
+      if (is_reg rc a && expr_eqb b v) || (expr_eqb a v && is_reg rc b) then Some (pt_is q PEq)
+      else match o_sentinel o with
+           | Some s => if (is_reg rc a && is_const s b) || (is_const s a && is_reg rc b) then Some (pt_is q PUnset) else None
+           | None => None
+           end
+  | _ => None
+  end.
+
+Definition and3 (x y : option bool) : option bool :=
+  match x, y with
+  | Some false, _ | _, Some false => Some false
+  | Some true, Some true => Some true
+  | _, _ => None
+  end.
+Definition or3 (x y : option bool) : option bool :=
+  match x, y with
+  | Some true, _ | _, Some true => Some true
+  | Some false, Some false => Some false
+  | _, _ => None
+  end.
+
+(* three-valued evaluation of a condition: known registers first, then (in phase PLoaded) the point *)
+Fixpoint aevalc (o : ospec) (k : list (reg * Z)) (lp : option (reg * pt)) (v : expr) (c : cond) : option bool :=
+  match c with
+  | CTrue => Some true
+  | CLt a b => match keval k a, keval k b with
+               | Some x, Some y => Some (x <? y)
+               | _, _ => match lp with Some (rc, q) => atom o q rc v c | None => None end
+               end
+  | CEq a b => match keval k a, keval k b with
+               | Some x, Some y => Some (x =? y)
+               | _, _ => match lp with Some (rc, q) => atom o q rc v c | None => None end
+               end
+  | CNot c => option_map negb (aevalc o k lp v c)
+  | CAnd a b => and3 (aevalc o k lp v a) (aevalc o k lp v b)
+  | COr a b => or3 (aevalc o k lp v a) (aevalc o k lp v b)
+  end.
+
+Definition exit_ok (o : ospec) (ph : phase) : bool :=
+  match ph with PGood => true | PLoaded _ pts => forallb (o_skipok o) pts | PIdle => false end.
+
+Definition succ_if (pts : list pt) (x : nat * astate) : list (nat * astate) := match pts with [] => [] | _ => [x] end.
+Definition not_false (b : option bool) : bool := match b with Some false => false | _ => true end.
+Definition not_true (b : option bool) : bool := match b with Some true => false | _ => true end.
+
+(* abstract successors of (pc, s); None = the program is not in the class *)
+Definition astep (o : ospec) (p : list instr) (v : expr) (pc : nat) (s : astate) : option (list (nat * astate)) :=
+  let k := a_known s in
+  match nth_error p pc with
+  | None | Some IRet => if exit_ok o (a_phase s) then Some [] else None
+  | Some (ILoad r) =>
+      Some [(S pc, {| a_known := kdel k r;
+                      a_phase := match a_phase s with
+                                 | PGood => PLoaded r (filter (o_skipok o) (o_points o))   (* the location already dominates v: so does what is loaded now *)
+                                 | _ => PLoaded r (o_points o)
+                                 end |})]
+  | Some (IStore _) | Some (IAdd _) => None
+  | Some (ISet r e) =>
+      Some [(S pc, {| a_known := match keval k e with Some z => kset k r z | None => kdel k r end;
+                      a_phase := match a_phase s with
+                                 | PLoaded rc pts => if Nat.eqb rc r then PIdle else PLoaded rc pts
+                                 | ph => ph
+                                 end |})]
+  | Some (ICas r old new) =>
+      match a_phase s with
+      | PLoaded rc pts =>
+          if is_reg rc old && expr_eqb new v && forallb (o_improves o) pts
+          then Some [(S pc, {| a_known := kset k r 1; a_phase := PGood |});
+                     (S pc, {| a_known := kset k r 0; a_phase := PIdle |})]
+          else None
+      | _ => None
+      end
+  | Some (IJmp t) => Some [(t, s)]
+  | Some (IJmpIf c t) =>
+      match a_phase s with
+      | PLoaded rc pts =>
+          let tk := filter (fun q => not_false (aevalc o k (Some (rc, q)) v c)) pts in
+          let fl := filter (fun q => not_true (aevalc o k (Some (rc, q)) v c)) pts in
+          Some (succ_if tk (t, {| a_known := k; a_phase := PLoaded rc tk |}) ++
+                succ_if fl (S pc, {| a_known := k; a_phase := PLoaded rc fl |}))
+      | _ => match aevalc o k None v c with
+             | Some true => Some [(t, s)]
+             | Some false => Some [(S pc, s)]
+             | None => Some [(t, s); (S pc, s)]
+             end
+      end
+  end.
+
+Definition mem_st (x : nat * astate) (R : list (nat * astate)) : bool :=
+  existsb (fun y => Nat.eqb (fst x) (fst y) && if astate_eq_dec (snd x) (snd y) then true else false) R.
+
+(* R is closed under abstract steps and contains no rejected state *)
+Definition closed (o : ospec) (p : list instr) (v : expr) (R : list (nat * astate)) : bool :=
+  forallb (fun x => match astep o p v (fst x) (snd x) with
+                    | Some succs => forallb (fun y => mem_st y R) succs
+                    | None => false
+                    end) R.
+
+(* the abstract states reachable from todo (work list; None: a rejected state was reached or out of fuel) *)
+Fixpoint reach (o : ospec) (p : list instr) (v : expr) (fuel : nat) (todo seen : list (nat * astate)) : option (list (nat * astate)) :=
+  match fuel with
+  | O => None
+  | S f =>
+      match todo with
+      | [] => Some seen
+      | x :: rest =>
+          if mem_st x seen then reach o p v f rest seen
+          else match astep o p v (fst x) (snd x) with
+               | None => None
+               | Some succs => reach o p v f (succs ++ rest) (x :: seen)
+               end
+      end
+  end.
+
+Definition astate0 : astate := {| a_known := []; a_phase := PIdle |}.
+
+Definition is_rmw_loop (o : ospec) (p : list instr) (v : expr) : bool :=
+  match reach o p v (64 * S (length p)) [(0%nat, astate0)] [] with
+  | Some R => mem_st (0%nat, astate0) R && closed o p v R
+  | None => false
+  end.
+
+(* largest value: v improves on cur when cur <= v, cur is good enough when v <= cur *)
+Definition max_spec : ospec :=
+  {| o_points := [PLt; PEq; PGt]; o_sentinel := None;
+     o_improves := fun q => pt_is q PLt || pt_is q PEq; o_skipok := fun q => pt_is q PEq || pt_is q PGt |}.
+(* smallest value with the sentinel -1 = "not set" (recorded values are >= 0) *)
+Definition min_spec : ospec :=
+  {| o_points := [PUnset; PLt; PEq; PGt]; o_sentinel := Some (-1);
+     o_improves := fun q => pt_is q PUnset || pt_is q PEq || pt_is q PGt; o_skipok := fun q => pt_is q PLt || pt_is q PEq |}.
+
+(* s, if it is on l, is an unconditional retry-loop update of the class *)
+Definition is_cas_sec (o : ospec) (l : loc) (s : section) : bool :=
   negb (N.eqb (s_loc s) l) ||
   match s_cond s, s_body s with
   | CTrue, BRmw p => match operand p with
-                     | Some v => reg_free v && prog_eqb p (cas_prog (skip v) v)
+                     | Some v => reg_free v && is_rmw_loop o p v
                      | None => false
                      end
   | _, _ => false
   end.
-Definition cas_only (skip : expr -> cond) (l : loc) (secs : list section) : bool := forallb (is_cas_sec skip l) secs.
+Definition cas_only (o : ospec) (l : loc) (secs : list section) : bool := forallb (is_cas_sec o l) secs.
 
 (* the values a thread records on l: operands of its sections on l *)
 Fixpoint recorded (l : loc) (args : list Z) (secs : list section) : list Z :=
@@ -239,8 +440,8 @@ Definition store_only (l : loc) (secs : list section) : bool :=
 Definition role_ok (secs : list section) (lr : loc * role) : bool :=
   match snd lr with
   | RCounter => add_only (fst lr) secs
-  | RMax => cas_only max_skip (fst lr) secs
-  | RMin => cas_only min_skip (fst lr) secs
+  | RMax => cas_only max_spec (fst lr) secs
+  | RMin => cas_only min_spec (fst lr) secs
   | RStamp => store_only (fst lr) secs
   end.
 
@@ -249,6 +450,16 @@ Definition known_locs (roles : list (loc * role)) (secs : list section) : bool :
 
 Definition prog_ok (roles : list (loc * role)) (secs : list section) : bool :=
   known_locs roles secs && forallb (role_ok secs) roles.
+
+(* which (program, location) pairs fail the shape check: program index * 1000 + location id (999: a section on a location
+   without role).  Only used to say WHAT is wrong when the instance lemma fails; the lemma itself is forallb prog_ok. *)
+Fixpoint shape_failures (roles : list (loc * role)) (i : N) (progs : list (list section)) : list N :=
+  match progs with
+  | [] => []
+  | secs :: r =>
+      map (fun lr => (i * 1000 + fst lr)%N) (filter (fun lr => negb (role_ok secs lr)) roles) ++
+      (if known_locs roles secs then [] else [(i * 1000 + 999)%N]) ++ shape_failures roles (i + 1)%N r
+  end.
 
 (* ---- bounded interleaving search (used to look for a witness schedule when a regenerated program is not
         of a proved shape; supporting, never a proof) ---- *)
